@@ -168,7 +168,11 @@ func NewEmptyConfig() Configuration {
 // within `target` is left unmodified. However, configuration of higher scoped fields will still be attempted.
 func (c Configuration) deserializeConfigInto(target interface{}, namespace string) error {
 	if tree := c.tree.Get(namespace); tree != nil {
-		err := tree.(*toml.Tree).Unmarshal(target)
+		subtree, ok := tree.(*toml.Tree)
+		if !ok {
+			return fmt.Errorf("the [%s] section must be a TOML table, found a value of type %T", namespace, tree)
+		}
+		err := subtree.Unmarshal(target)
 		if err != nil {
 			return err
 		}
